@@ -5,6 +5,9 @@ CfgCap1  == {<<1, 2, 0>>, <<1, 2, 1>>}
 CfgOnlyCap1 == {<<1, 2, 1>>}
 CfgSmall == {<<1, 2, 0>>, <<1, 2, 1>>, <<1, 2, 2>>, <<2, 4, 0>>, <<2, 2, 2>>}
 CfgAll   == {<<i, m, cap>> \in {1, 2} \X {2, 4} \X {0, 1, 2} : TRUE}
+(* trace validation: every configuration the harness uses; client goroutines 1..6 call Add as often as the trace says *)
+CfgTrace == (1..3) \X (1..15) \X (0..4)
+PTrace == <<1000, 1000, 1000, 1000, 1000, 1000>>
 P1   == <<1>>
 P2   == <<2>>
 P11  == <<1, 1>>
